@@ -8,8 +8,9 @@
 (* | "persist_reopen".  `exc` is the exception class the mutator raised ("" = none); `o` holds what  *)
 (* EVERY observer returned right after the mutator: __getitem__ for every key of `gkeys`, to_array    *)
 (* for splat_internal = None/True/False, mask, mask_linear(), has_index(i) and get_from_index(i) for *)
-(* every linear index i of the external shape.  gk = 0: the __getitem__ observations were skipped    *)
-(* for this event (o.get = []); the LAST event of an obs = "full" trace must have gk = 1.            *)
+(* every linear index i of the external shape.  gk = 0 ("light" event): __getitem__ and the two      *)
+(* explicit to_array variants were skipped (o.get = [], o.ta_true = o.ta_false = Raise("-")), all    *)
+(* other observers were called; the LAST event of an obs = "full" trace must have gk = 1.            *)
 (* An event is explained iff the specified mutator has the logged outcome AND every specified        *)
 (* observation of the specified post-state equals the logged one.                                    *)
 (* obs = "full": gkeys must contain ObsGetKeys(full shape), otherwise the TRACE is ill-formed         *)
@@ -37,7 +38,9 @@ Apply(e, s) ==
       [] e.op = "dump"           -> LET d == Dump(G, s.w, e.key, e.val) IN [exc |-> d.exc, st |-> [s EXCEPT !.w = d.w]]
       [] e.op = "persist_reopen" -> [exc |-> "", st |-> PersistReopen(s)]
 
-Obs(e, w)     == Observe(G, w, IF e.gk = 1 THEN T.gkeys ELSE <<>>)
+Skipped       == Raise("-")
+Obs(e, w)     == IF e.gk = 1 THEN Observe(G, w, T.gkeys)
+                 ELSE [Observe(G, w, <<>>) EXCEPT !.ta_true = Skipped, !.ta_false = Skipped]
 Matches(e, r) == r.exc = e.exc /\ Obs(e, r.st.w) = e.o
 
 Report(c, i, exp) == PrintT(<<"DIAG", ToJson([t |-> tid, l |-> l, c |-> c, i |-> i, exp |-> exp])>>)
